@@ -410,6 +410,13 @@ func c14FixPath(w *W) {
 	for _, x := range strings.Split(w.Shard.Arg, ",") {
 		path = append(path, atoi(x))
 	}
+	// a name table shorter than the built-in one is only installed as the first fix-up of a history: after records with
+	// higher name indices have been added, shrinking the table is caller misuse (lookups of those records cannot name them)
+	for k, i := range path {
+		if k > 0 && ops[i].names != nil && len(ops[i].names) < len(HolidayUtil.NAMES) {
+			return
+		}
+	}
 	names0, data0 := HolidayUtil.VerifState()
 	// years touched by this path (+-1): day- and month-level views are compared there; by-year views on all years
 	years := map[int]bool{}
